@@ -285,8 +285,9 @@ pub fn exec_traced<'a>(ctx: &'a mut Ctx, sc: &'a Value, plan: &Value, tag: &str)
             return Exec { it, sc, pres, sub, ctl };
         }
     }
-    let root_s = normalize(&root.display().to_string());
-    let cache_s = format!("{}/cache", root_s);
+    let root_s = normalize(&crate::penc::penc(&root));
+    let cache_pb = it.cache.clone();
+    let cache_s = normalize(&crate::penc::penc(&cache_pb));
     let mut sched = Sched::new(plan, clients.len());
     let mut checked_upto = 0usize;
     let mut last_client: Option<usize> = None;
@@ -304,11 +305,11 @@ pub fn exec_traced<'a>(ctx: &'a mut Ctx, sc: &'a Value, plan: &Value, tag: &str)
             for p in [&ev.sys.path, &ev.sys.path2].into_iter().flatten() {
                 if let Some(rel) = p.strip_prefix(&format!("{}/", cache_s)) {
                     if rel.starts_with("content-v2/") && rel.split('/').count() == 5 {
-                        let md = std::fs::symlink_metadata(root.join("cache").join(rel));
+                        let md = std::fs::symlink_metadata(cache_pb.join(rel));
                         if let Ok(md) = md {
                             if md.is_file() {
                                 let damaged = matches!(it.m.content.get(rel), Some(c) if c.state == CState::Damaged);
-                                let cf = disk::check_content_file(&root.join("cache"), rel, disk::FileKind::Regular);
+                                let cf = disk::check_content_file(&cache_pb, rel, disk::FileKind::Regular);
                                 if !cf.digest_ok && !damaged {
                                     sub.viols.push(Viol { class: "content-integrity".into(), sig: format!("content-integrity/visible-after/{}", ev.sys.name), msg: format!("after {} by client {} (step {}), content file {} ({} B) does not hold the data of its address", ev.sys.name, ev.client, ev.step, rel, cf.len), step: ev.step, scenario: None });
                                 }
@@ -320,7 +321,7 @@ pub fn exec_traced<'a>(ctx: &'a mut Ctx, sc: &'a Value, plan: &Value, tag: &str)
                     }
                     if rel.starts_with("index-v5/") && ev.sys.data_write && sc["check_partial_records"].as_bool().unwrap_or(false) && ev.ret >= 0 {
                         // C07: no reader may ever see a partial record: after every write the bucket consists of whole records
-                        if let Ok(b) = std::fs::read(root.join("cache").join(rel)) {
+                        if let Ok(b) = std::fs::read(cache_pb.join(rel)) {
                             let lines = fmt::parse_bucket(&b);
                             if lines.iter().skip(1).any(|l| l.rec.is_none()) || (b.first() != Some(&b'\n') && !b.is_empty()) {
                                 sub.viols.push(Viol { class: "partial-record".into(), sig: format!("partial-record/after-{}", ev.sys.name), msg: format!("after a write by client {} the bucket {} contains a line that is not a whole record", ev.client, rel), step: ev.step, scenario: None });
@@ -431,14 +432,14 @@ pub fn exec_traced<'a>(ctx: &'a mut Ctx, sc: &'a Value, plan: &Value, tag: &str)
     // C15 bookkeeping: every mutating call, relevant or not
     sub.events = tracer.events.clone();
     let muts = tracer.all_mutations.clone();
-    c15_invariants(sc, &root_s, &muts, &mut sub);
+    c15_invariants(sc, &root_s, &cache_s, &muts, &mut sub);
     let _ = faults_delivered;
     Exec { it, sc, pres, sub, ctl }
 }
 
 /// I2 / I3 / key opaqueness over the complete list of mutating calls.
-fn c15_invariants(sc: &Value, root: &str, muts: &[(usize, Option<usize>, Sys, i64)], sub: &mut Sub) {
-    let cache = format!("{}/cache", root);
+fn c15_invariants(sc: &Value, root: &str, cache_s: &str, muts: &[(usize, Option<usize>, Sys, i64)], sub: &mut Sub) {
+    let cache = cache_s.to_string();
     let clients = sc["clients"].as_array().cloned().unwrap_or_default();
     let mut n_mut = 0u64;
     for (c, op, sys, _) in muts {
@@ -1477,7 +1478,7 @@ fn gen_c15(rng: &mut Rng, _r: u64) -> Value {
         st["mode"] = json!(if st["op"] == "list" { "sync" } else { f.1 });
         steps.push(st);
     }
-    let style = *rng.pick(&["plain", "plain", "trailing_slash", "dotted", "dotdot"]);
+    let style = *rng.pick(&["plain", "plain", "trailing_slash", "dotted", "dotdot", "odd_cache"]);
     let faults: Vec<Value> = if rng.chance(1, 2) { vec![json!({"client":0,"at":rng.below(40),"action":{"a":"errno","e":*rng.pick(&[libc::EIO, libc::EACCES, libc::ENOSPC])}})] } else { vec![] };
     let oracle = if faults.is_empty() { "strict" } else { "fault" };
     json!({"keys":keys,"vals":vals,"cache_style":style,"prelude":prelude,"clients":[{"bin":f.0,"steps":steps}],"post":[],
